@@ -421,6 +421,34 @@ def run(item):
             V('layout', 'DM2numpy(%s,%s)' % (name, g), 'array returned for an %dx%d expression on %d time points has shape %s / wrong entry order (expected %s, entry [i,r,c] = element (r,c) at time i)' % (r_, c_, npts, arr.shape, want_shape))
         else:
             ch.proved.append('layout %s@%s' % (name, g))
+    # the numeric read-back itself (OcpSolution.sample at the starting point): one time entry per returned value, leading index = time
+    from rockit.solution import OcpSolution
+    opti_ = inst.b.ocp._method.opti
+
+    class _AtStart:
+        def value(self, e, *a):
+            return opti_.debug.value(e, opti_.initial())
+    try:
+        with quiet():
+            sol_ = OcpSolution(_AtStart(), inst.b.ocp)
+        done_ = set()
+        for name, mat in exprs[:2]:
+            for gi, (g, kw) in enumerate(grids):
+                if 'refine' in kw or (g, len(mat), len(mat[0])) in done_ or (g == 'integrator_roots' and any(l[0] == 'q' for l in leaf_list(mat))):
+                    continue
+                done_.add((g, len(mat), len(mat[0])))
+                with quiet():
+                    m_ = ca.vcat([ca.hcat([inst.b.mx(e) for e in row]) for row in mat])
+                    tt_, vv_ = sol_.sample(m_, grid=g)
+                want_n = {'control': N + 1, 'control-': N, '-control': N, '-control-': N - 1, 'integrator': N * M + 1, 'integrator_roots': N * M * cfg.degree}[g]
+                want_shape = tuple([want_n] + [s_ for s_ in (len(mat), len(mat[0])) if s_ != 1])
+                if np.shape(tt_) != (want_n,) or np.shape(vv_) != want_shape:
+                    V('readback-shape', 'sol.sample(%s,%s)' % (name, g), 'sol.sample returned a time array of shape %s and values of shape %s for a %dx%d expression on %d time points (expected (%d,) and %s)' % (
+                        np.shape(tt_), np.shape(vv_), len(mat), len(mat[0]), want_n, want_n, want_shape))
+                else:
+                    ch.proved.append('readback shape %s@%s' % (name, g))
+    except Exception as e_:
+        V('readback-raises', 'sol.sample', 'numeric read-back raised: %s' % str(e_).strip().splitlines()[-1][:200])
     r = result(inst, ch, {'violations': viol, 'twins_ok': twins_ok, 'twins_bad': twins_bad, 'shape': '%s|%s' % (cfg.tag(), spec.t0[0] + '/' + spec.T[0]),
                           'sample': {'cfg': cfg.tag(), 'expressions': [(n_, repr(m)) for n_, m in exprs][:3], 'grids': [g + str(kw) for g, kw in grids], 'proved': len(ch.proved)}})
     if viol:
